@@ -440,7 +440,8 @@ impl<'a> ListStylist<'a> {
                             };
                             inner += body + follow + ln;
                         }
-                        Item::Linebreak(n) => inner += arena.line().repeat_n(n),
+                        // Kept blank lines only exist in the broken layout; a folded list must not get extra blanks.
+                        Item::Linebreak(n) => inner += arena.line_().repeat_n(n),
                     }
                 }
                 if !sty.no_indent {
